@@ -60,6 +60,9 @@ CLAIMED = {
     "C19": dict(level="model_checking", ref="4/C19", technique="TLA+ trace validation (TypeTrace: classification of transform failures into type-class and data-dependent from the error's own structure) of type_check followed by transform on the complete (position x filler) family of TypeGen.tla",
                 text="TypeGen.tla enumerates every pair of a program position (operand, index, bound, iteration source, function argument, array index, aggregation body, destructuring pattern, declaration bound, logic operand, let body) and a filler of a chosen type; the real type checker and transformer run on each; TypeTrace.tla accepts an event iff acceptance implies that transform succeeds or fails with a data-dependent error.",
                 note="soundness only; three classes of genuine type-checker holes are listed as known findings"),
+    "C16": dict(level="model_checking", ref="4/C16", technique="TLC-enumerated call plans of the builder state machine (Builder.tla) executed against the real ModelBuilder, and TLA+ trace validation (DoorsTrace + Judge) of the answers of five front doors against the abstract model",
+                text="Builder.tla states the fluent builder as a machine (with / with_all / objective calls; last objective wins) and TLC enumerates every call plan up to four calls; each sampled abstract model is built through a plan with the real builder (methods and operators) and also compiled from text, from text with API-supplied constants, through the pipe runner and through the one-shot solver. DoorsTrace.tla judges every door's answer by complete enumeration of the domains, compares rows when trees are identical and checks handle / name / eval read-backs.",
+                note="integer and Boolean domains; macros are not exercised (they expand to the same calls)"),
 }
 NOT_YET = {}
 ALL = [f"C{i:02d}" for i in range(1, 21)]
